@@ -158,6 +158,17 @@ def build(case: dict, d: Path) -> dict:
     elif o == "dot_license_is_directory":
         (root / "src" / "b.py.license").mkdir()
         info["target"] = "src/b.py"
+    elif o in ("two_files_fail_annotate", "three_files_fail_annotate"):
+        # several files that each cannot be annotated, named in ONE invocation: the exit status says "failed", not how often
+        n = 2 if o.startswith("two") else 3
+        info["many"] = []
+        for k in range(n):
+            if k % 2 == 0:
+                (root / "src" / f"u{k}.py").write_bytes(b"# caf\xe9 \xff\xfe latin-1 text\nx = 1\n")
+            else:
+                (root / "src" / f"u{k}.py").write_text("x = 1\n")
+                (root / "src" / f"u{k}.py.license").mkdir()
+            info["many"].append(f"src/u{k}.py")
     elif o == "template_bad_syntax":
         (root / ".reuse" / "templates").mkdir(parents=True)
         (root / ".reuse" / "templates" / "broken.jinja2").write_text("{% for x in copyright_lines %}\n{{ x }\n")
@@ -176,6 +187,9 @@ def commands(root: Path, info: dict, other: str) -> list:
             ("download-all", ["--root", str(root), "download", "--all"])]
     if other.startswith("dep5"):
         cmds.append(("convert-dep5", [*base, "convert-dep5"]))
+    if info.get("many"):
+        cmds.append(("annotate-many", [*ann, *[str(root / m) for m in info["many"]], t]))
+        cmds.append(("annotate-recursive", [*ann, "--recursive", str(root / "src")]))
     return cmds
 
 
@@ -253,6 +267,7 @@ def run(ctx: core.Ctx) -> int:
               "covered_unreadable": "valid", "covered_vanishes": "valid", "licenseref_not_utf8": "valid", "license_dir_is_file": "grey",
               "template_bad_syntax": "grey", "dot_license_not_utf8": "valid", "licenses_same_identifier": "invalid",
               "dep5_and_nested_toml": "invalid", "covered_terminator_run": "valid",
+              "two_files_fail_annotate": "valid", "three_files_fail_annotate": "valid",
               "template_raises": "grey", "template_undefined": "grey", "template_garbles_expression": "grey", "dot_license_is_directory": "grey"}
     for o, cls in others.items():
         cmds = list(all_cmds) + (["convert-dep5"] if o.startswith("dep5") else [])
@@ -260,6 +275,8 @@ def run(ctx: core.Ctx) -> int:
             cmds = ["lint", "lint-json", "lint-lines", "spdx", "lint-file"]
         if o == "covered_terminator_run":
             cmds = ["lint", "spdx", "lint-file"]
+        if o.endswith("_files_fail_annotate"):
+            cmds = ["lint", "annotate-many", "annotate-recursive"]
         cases.append({"devs": [], "other": o, "class": cls, "cmds": cmds, "label": json.dumps(o)})
     for g in rnd.sample(gens, 8 if q else 40):        # the real executable on a sample
         cases.append({"devs": g["devs"], "other": "", "class": g["class"], "cmds": ["lint", "annotate"], "subprocess": True,
